@@ -9,9 +9,10 @@ import NV.Driver.Cap
 import NV.Driver.Listen
 import NV.Driver.Upfault
 import NV.Driver.Discovery
+import NV.Driver.Config
 namespace NV
 
-def steppers : List (List String → Option String) := [stepCore, stepCap, stepRaceSoak, stepListen, stepUpfault, Disc.stepDiscovery]
+def steppers : List (List String → Option String) := [stepCore, stepCap, stepRaceSoak, stepListen, stepUpfault, Disc.stepDiscovery, Config.stepConfig]
 
 def step (line : String) : String :=
   let toks := line.splitOn " "
